@@ -265,8 +265,16 @@ fn gen_lib(c: &mut Chooser) -> Case {
                 2 => SGeom::Rect((anchor.0 - 1, y0 - 3), (anchor.0 + 1, y0 - 1)),
                 _ => SGeom::Rect((anchor.0 - 1, y1 + 1), (anchor.0 + 1, y1 + 3)),
             };
+            // a neighbour that would leave the 32-bit coordinate range GDSII can carry is left out (the focus shapes at
+            // the limits of that range have no room on that side)
+            let in_range = match &nb {
+                SGeom::Rect(a, b) => [a.0, a.1, b.0, b.1].iter().all(|v| *v >= i32::MIN as i64 && *v <= i32::MAX as i64),
+                _ => true,
+            };
             let nbs = SShape { layer: LP[lp].0, purpose: LP[lp].1, geom: nb, net: Some("Nbr".into()) };
-            if first {
+            if !in_range {
+                leaf.shapes.push(focus);
+            } else if first {
                 leaf.shapes.push(nbs);
                 leaf.shapes.push(focus);
             } else {
